@@ -23,6 +23,7 @@ func runC03(c *Ctx, emit func(cs *progs.Case) progs.Obs) {
 		r := c.R.Fork()
 		g := &progs.Gen{R: r}
 		s := g.GenSettings()
+		g.Now = progs.GenTime(r)
 		cs := &progs.Case{S: s, Now: g.Now}
 		seq := 0
 		name := func(prefix string) []byte { seq++; return []byte(fmt.Sprintf("%s%d", prefix, seq)) }
@@ -59,6 +60,14 @@ func runC03(c *Ctx, emit func(cs *progs.Case) progs.Obs) {
 			}
 			ctxKeys = append(ctxKeys, stepCtx...)
 			if !st.Update {
+				// Context.Timestamp() registers a hook at this point of the path: after the hooks of
+				// the ancestors, before the hooks this step adds with Hook()
+				for q := 0; q < 2; q++ {
+					if r.Chance(20) && s.TimestampName != "" {
+						st.Cops = append(st.Cops, progs.Cop{K: "timestamp", Sub: []progs.Op{{K: "timestamp", When: g.Now}}})
+						hookKeys = append(hookKeys, s.TimestampName)
+					}
+				}
 				nh := r.Intn(3)
 				for j := 0; j < nh; j++ {
 					g.MarkID++
